@@ -65,6 +65,75 @@ theorem recvPrelude_has_O (fam a f) (h : checksOwn fam a f = true) : Chk.O ∈ r
   · simp [h]
   · split <;> simp [h]
 
+/-- the senders-gone test a blocking receive form performs after finding the buffer empty -/
+def goneFor (fl : Flavour) (s : St) (f : Form) (hd : Handle) : Bool :=
+  sendersGone s || (fl.fam == .sb && hd.isAsync && (f == .recvBatch || f == .recvBatchMut) && s.pd)
+
+theorem recvUnit_pos (fl cfg f n) (hw : recvWant f n [] > 0) : recvUnit fl cfg f n [] > 0 := by
+  unfold recvUnit; split <;> omega
+
+/-- A receive that has taken nothing yet cannot move exactly when the buffer is empty, the senders are
+not gone and the form is a blocking one — in every configuration. -/
+theorem recvStep_none_iff (fl : Flavour) (cfg : Cfg) (s : St) (t : Nat) (f : Form) (hd : Handle) (n : Nat)
+    (hw : recvWant f n [] > 0) (hf : f.isSend = false) :
+    recvStep fl cfg s t f hd n [] = none ↔ (s.buf = [] ∧ goneFor fl s f hd = false ∧ f.blocking = true) := by
+  have hu := recvUnit_pos fl cfg f n hw
+  have hk : recvK fl cfg s f n [] = 0 ↔ s.buf = [] := by
+    unfold recvK
+    constructor
+    · intro h0
+      have : s.buf.length = 0 := by omega
+      exact length_eq_zero_iff.mp this
+    · intro hb; simp [hb]
+  unfold recvStep
+  by_cases hb : s.buf = []
+  · simp only [hk.mpr hb, if_true, isEmpty_nil, hb, true_and]
+    unfold emptyOutcome goneFor
+    simp only []
+    split
+    · rename_i hg; simp [hg]
+    · rename_i hg
+      have hg' : (sendersGone s || fl.fam == Fam.sb && hd.isAsync && (f == Form.recvBatch || f == Form.recvBatchMut) && s.pd) = false := by
+        simpa using hg
+      cases f <;> simp_all [Form.blocking, Form.isSend]
+  · have hk' : ¬ recvK fl cfg s f n [] = 0 := fun h => hb (hk.mp h)
+    simp only [hk', if_false, hb, false_and, iff_false]
+    split <;> simp
+
+
+theorem findH_flush (fl) (s : St) (h) : findH (mbFlush fl s).hs h = findH s.hs h := by
+  unfold mbFlush; split <;> rfl
+
+/-- a receive that cannot move stays where it is however long it is run (a bounded-mpsc consumer
+flushes its unpublished progress once on the way) -/
+theorem runPS_brecv_stuck (fl : Flavour) (cfg : Cfg) (t : Nat) (f : Form) (h : HName) (n : Nat) (hd : Handle)
+    (hw : recvWant f n [] > 0) (hform : f.isSend = false) :
+    ∀ (fuel : Nat) (s : St), findH s.hs h = some hd → recvStep fl cfg s t f hd n [] = none →
+      (runPS fl cfg fuel s (.brecv t f h n [])).2 = .brecv t f h n [] := by
+  intro fuel
+  induction fuel with
+  | zero => intro s _ _; rfl
+  | succ k ih =>
+    intro s hf hn
+    unfold runPS
+    simp only [microDet, hf, hn]
+    split
+    · rfl
+    · rename_i s' p' hm
+      split at hm
+      · cases hm
+        refine ih _ (by rw [findH_flush]; exact hf) ?_
+        rw [recvStep_none_iff fl cfg _ t f hd n hw hform]
+        have := (recvStep_none_iff fl cfg s t f hd n hw hform).mp hn
+        obtain ⟨a, b, c, d, e⟩ := mbFlush_fields fl s
+        refine ⟨by rw [a]; exact this.1, ?_, this.2.2⟩
+        have hg := this.2.1
+        unfold goneFor sendersGone at hg ⊢
+        have hsc : (mbFlush fl s).sc = s.sc := by simpa [St.shell] using congrArg Shell.sc d
+        have hpd : (mbFlush fl s).pd = s.pd := by simpa [St.shell] using congrArg Shell.pd d
+        rw [hsc, hpd]; exact hg
+      · cases hm
+
 /-- a buffered send form that stops in its early checks fails Closed with everything handed back (or
 dropped by `send`) and nothing accepted -/
 theorem startSendBuf_closed {fl cfg s t f h hd vs} (hne : vs ≠ [])
@@ -176,7 +245,11 @@ theorem stepOp_recv_disconnected {fl : Flavour} (hrv : fl.fam ≠ .rv) (hos : fl
   simp only [hf] at ht
   split at ht
   · rw [runPS_fin] at ht; simp [P.outOrBlocks] at ht
-  · split at ht
+  · rename_i hcond
+    have hfm : f.isSend = false := by
+      simp only [not_or] at hcond
+      simpa using hcond.2.1
+    split at ht
     · rw [runPS_fin] at ht; simp [P.outOrBlocks] at ht
     · rename_i c hc
       rw [runPS_fin] at ht
@@ -199,19 +272,23 @@ theorem stepOp_recv_disconnected {fl : Flavour} (hrv : fl.fam ≠ .rv) (hos : fl
         exact hdisc ht
       · -- blocked: the loop state cannot move, the outcome is `blocks`
         rename_i hr
-        have hstuck : ∀ fuel, (runPS fl { hot := true, granular := false } fuel s (.brecv 0 f h n [])).2
-            = .brecv 0 f h n [] := by
-          intro fuel
-          induction fuel with
-          | zero => rfl
-          | succ k ih =>
-            unfold runPS
-            simp only [microDet, hf]
-            have : recvStep fl { hot := true, granular := false } s 0 f hd n [] = none := hr
-            rw [this]
-        rw [hstuck] at ht
+        have hst := runPS_brecv_stuck fl seqCfg 0 f h n hd hw hfm ((Op.rcv f h n).size + 3) (mbFlush fl s)
+          (by rw [findH_flush]; exact hf)
+          (by
+            rw [recvStep_none_iff fl seqCfg _ 0 f hd n hw hfm]
+            have := (recvStep_none_iff fl seqCfg s 0 f hd n hw hfm).mp hr
+            obtain ⟨a, b, c, d, e⟩ := mbFlush_fields fl s
+            refine ⟨by rw [a]; exact this.1, ?_, this.2.2⟩
+            have hg := this.2.1
+            unfold goneFor sendersGone at hg ⊢
+            have hsc : (mbFlush fl s).sc = s.sc := by simpa [St.shell] using congrArg Shell.sc d
+            have hpd : (mbFlush fl s).pd = s.pd := by simpa [St.shell] using congrArg Shell.pd d
+            rw [hsc, hpd]; exact hg)
+        have hst' : (runPS fl { hot := true, granular := false } ((Op.rcv f h n).size + 3) (mbFlush fl s) (.brecv 0 f h n [])).2
+            = .brecv 0 f h n [] := hst
+        simp only [] at ht
+        rw [hst'] at ht
         simp [P.outOrBlocks, blocksOut] at ht
-
 
 /-- with `n ≠ 0` (or a single form) and the own flag set, a receive prelude containing `O` stops at `O` -/
 theorem firstHit_recv_closed {l} (hm : Chk.O ∈ l) : ∃ c, firstHit l false true false = some c ∧ c ≠ .E := by
